@@ -51,6 +51,20 @@ Paths(n) == One({"base", "clean", "dir"}, StrsUpTo({"a", "/", ".", "ee", "xff"},
 Metas(n) == One({"quoteMeta"}, StrsUpTo({"a", ".", "*", "[", "bs", "ee", "xff"}, n))
 Matches(n) == Two({"matchString"}, StrsUpTo({"a", ".", "*", "(", "ee", "xff"}, n), StrsUpTo({"a", "ee", "xff"}, 2))
 Envs(n) == One({"expandEnv"}, StrsUpTo({"$", "{", "}", "V", "a", "ee"}, n)) \/ One({"getenv"}, StrsUpTo({"V", "a", "$", "ee"}, 2))
+\* ENVIRONMENT dimension: values that themselves contain references ($X, ${X}, $$, $5), a self-reference, a
+\* 2-cycle and references to unset names.  os.ExpandEnv substitutes ONCE; the environment travels with the case
+\* as an extra, implicit argument (the harness sets it for the process, the driver computes the namesake under it).
+Env1 == [V |-> <<"p", "a", "$", "$", "w">>, W |-> <<"$", "V">>, A |-> <<"x", "$", "A">>,
+         B |-> <<"$", "{", "C", "}">>, C |-> <<"$", "B">>, D |-> <<"$", "5", "ee">>]
+EnvRefs(n) == \/ \E x \in StrsUpTo({"$", "{", "}", "V", "W", "A", "B", "D", "U"}, n) : Is("expandEnv", <<S(x), ENV(Env1)>>)
+              \/ \E x \in {<<"V">>, <<"W">>, <<"A">>, <<"B">>, <<"D">>, <<"U">>, <<"$", "A">>} : Is("getenv", <<S(x), ENV(Env1)>>)
+\* large magnitudes, named: every single step of the left fold may be exact while a reordered evaluation overflows
+Big == {"3", "-3", "1000", "2147483648", "4294967296", "-4294967296", "4000000000", "9000000000000000000",
+        "9223372036854775807", "-9223372036854775808"}
+Big4 == {"1000", "4294967296", "4000000000", "9000000000000000000"}
+BigArith(k) == \/ \E f \in ArithFns, xs \in UNION {[1..j -> Big] : j \in 2..k} : Is(f, [i \in 1..Len(xs) |-> N(xs[i])])
+               \/ \E f \in ArithFns, xs \in [1..4 -> Big4] : Is(f, [i \in 1..4 |-> N(xs[i])])
+               \/ \E f \in {"incr", "decr"}, x \in Big : Is(f, <<N(x)>>)
 Files == \E p \in {"", "file", "dir", "missing"} : Is("readFile", <<P(p)>>)
 Rand == Is("randInt", << >>)
 
@@ -65,7 +79,7 @@ CaseChoice ==
          \/ SplitN(A3, 1, -2..2, 3) \/ Repl({"a", "ee"}, 1, -2..2, 3) \/ ReplAll({"a", "ee"}, 1, 3)
          \/ Joins({<<>>, <<"a">>, <<"ee">>})
          \/ Arith(-3..3) \/ Floats(-10..10)
-         \/ Paths(3) \/ Metas(2) \/ Matches(2) \/ Envs(3) \/ Files \/ Rand
+         \/ Paths(3) \/ Metas(2) \/ Matches(2) \/ Envs(3) \/ EnvRefs(3) \/ BigArith(3) \/ Files \/ Rand
     [] Tier = "thorough" ->
          \/ Singles(3) \/ One(SingleFns, [1..4 -> {"a", "A", "ee", "_", "xff"}])
          \/ Pairs(A2t, 2, 3) \/ Pairs(A3, 3, 3) \/ Pairs({"a", "A", "EE"}, 2, 3)
@@ -74,7 +88,7 @@ CaseChoice ==
          \/ Joins({<<>>, <<"a">>, <<"ee">>, <<"xff", "b">>})
          \/ Arith(-4..4) \/ Floats(-18..18)
          \/ (\E f \in ArithFns, xs \in [1..4 -> -2..2] : Is(f, [i \in 1..4 |-> I(xs[i])]))
-         \/ Paths(4) \/ Metas(3) \/ Matches(3) \/ Envs(4) \/ Files \/ Rand
+         \/ Paths(4) \/ Metas(3) \/ Matches(3) \/ Envs(4) \/ EnvRefs(4) \/ BigArith(3) \/ Files \/ Rand
     [] Tier = "witness2" ->
          \* negated witness for the length-changing letters (seeded C16-r3m1 code shape)
          One({"exported"}, StrsUpTo({"a", "dli", "tua", "ast", "ee"}, 2))
